@@ -3,7 +3,7 @@ import io, os, struct, sys
 sys.path.insert(0, os.path.dirname(__file__))
 from _common import main
 
-BOUND = 'two files in one process whose indexes assign different sub ids, with rows the second index does not list; files of several hundred rows (> 64 KiB); seeded synthetic extract files: random table-index assignments (incl. unconfigured tables), 0..5 rows per table interleaved, every packaged table plus generated layouts (incl. a redefinition of a packaged table name), compressed and expanded, latin_1/cp500, blocked/unblocked; two readers of the same table in one process; files without trailer / tables without configuration'
+BOUND = 'indexes that list several sub ids for one table (rows carrying any of them); two files in one process whose indexes assign different sub ids, with rows the second index does not list; files of several hundred rows (> 64 KiB); seeded synthetic extract files: random table-index assignments (incl. unconfigured tables), 0..5 rows per table interleaved, every packaged table plus generated layouts (incl. a redefinition of a packaged table name), compressed and expanded, latin_1/cp500, blocked/unblocked; two readers of the same table in one process; files without trailer / tables without configuration'
 
 
 def frame(recs, blocked):
@@ -36,13 +36,28 @@ def oracle(inp):
             subs[t] = '%03d' % rng.randint(0, 999)
     alpha = 'ABCDEFGHIJKLMNOPQRSTUVWXYZ0123456789'
     recs = []
+    subs2 = {}
+    if inp.get('multi_sub'):
+        # the index lists two (three for the requested table) sub ids for a table: rows carrying any of them are its rows
+        mrng = random.Random(inp['seed'] + 1000)
+        used = set(subs.values())
+        for t in names:
+            subs2[t] = []
+            for _ in range(3 if t == inp['table'] else mrng.randint(0, 2)):
+                x = '%03d' % mrng.randint(0, 999)
+                while x in used:
+                    x = '%03d' % mrng.randint(0, 999)
+                used.add(x)
+                subs2[t].append(x)
     for t in names:
-        row = bytearray((' ' * 300).encode('latin_1').decode('latin_1'), 'latin_1')
-        line = list(' ' * 300)
-        line[11:19] = 'IP0000T1'
-        line[19:27] = t
-        line[243:246] = subs[t]
-        recs.append(''.join(line))
+        for k, sub in enumerate([subs[t]] + subs2.get(t, [])):
+            line = list(' ' * 300)
+            line[11:19] = 'IP0000T1'
+            line[19:27] = t
+            line[243:246] = sub
+            recs.append(''.join(line))
+    if inp.get('multi_sub') == 'first-listed-last':
+        recs = recs[::-1]
     if not inp.get('no_trailer'):
         recs.append('TRAILER RECORD IP0000T1' + ' ' * 40)
     rows = []
@@ -56,7 +71,8 @@ def oracle(inp):
         ts = ''.join(rng.choice('0123456789') for _ in range(10))
         code = rng.choice('AI')
         x = ts + code + t + body                      # expanded: ts(10) code(1) table(8) columns from 19
-        c = ts[:7] + code + subs[t] + body            # compressed: ts(7) code(1) sub(3) columns from 11
+        sub = subs[t] if not subs2.get(t) else mrng.choice([subs[t]] + subs2[t])
+        c = ts[:7] + code + sub + body                # compressed: ts(7) code(1) sub(3) columns from 11
         data_x.append((t, x, c))
         recs.append(x if expanded else c)
     raw = frame([r.encode(enc) for r in recs], blocked)
@@ -131,6 +147,11 @@ def cases(tier, rng):
         for expanded in (False, True):
             yield {'seed': 3, 'enc': 'cp500' if expanded else 'latin_1', 'blocked': blocked, 'expanded': expanded, 'table': 'IP0040T1', 'big': True}
             yield {'seed': 4, 'enc': 'latin_1', 'blocked': blocked, 'expanded': expanded, 'table': 'IP0999T1', 'generated': True, 'big': True}
+    for seed in (1, 2, 3):
+        for ms in (True, 'first-listed-last'):
+            for expanded in (False, True):
+                yield {'seed': seed, 'enc': 'latin_1' if seed % 2 else 'cp500', 'blocked': bool(seed % 2), 'expanded': expanded, 'table': 'IP0040T1', 'multi_sub': ms}
+                yield {'seed': seed, 'enc': 'latin_1', 'blocked': False, 'expanded': expanded, 'table': 'IP0999T1', 'generated': True, 'multi_sub': ms}
     yield {'seed': 1, 'enc': 'latin_1', 'blocked': True, 'expanded': False, 'table': 'IP0040T1', 'no_trailer': True}
     yield {'seed': 1, 'enc': 'latin_1', 'blocked': True, 'expanded': False, 'table': 'IP0777T1'}
 
